@@ -72,6 +72,19 @@ class _Spell(ast.NodeTransformer):
     def visit_Subscript(self, n):
         self.generic_visit(n)
         s = n.slice
+        # x[a:b:-1] with constants a < 0 <= b walks n+a, ..., b+1: the reverse of x[b+1:a+1]
+        if isinstance(n.ctx, ast.Load) and isinstance(s, ast.Slice) and s.lower is not None and s.upper is not None and \
+                isinstance(s.step, ast.UnaryOp) and isinstance(s.step.op, ast.USub) and isinstance(s.step.operand, ast.Constant) and \
+                s.step.operand.value == 1 and isinstance(s.lower, ast.UnaryOp) and isinstance(s.lower.op, ast.USub) and \
+                isinstance(s.lower.operand, ast.Constant) and isinstance(s.lower.operand.value, int) and s.lower.operand.value >= 1 and \
+                isinstance(s.upper, ast.Constant) and isinstance(s.upper.value, int) and s.upper.value >= 0:
+            a = -s.lower.operand.value
+            inner = ast.Subscript(value=n.value, slice=ast.Slice(lower=ast.Constant(value=s.upper.value + 1),
+                                                                 upper=(ast.UnaryOp(op=ast.USub(), operand=ast.Constant(value=-(a + 1))) if a + 1 < 0 else None),
+                                                                 step=None), ctx=ast.Load())
+            c = ast.Call(func=ast.Attribute(value=ast.Name(id="np", ctx=ast.Load()), attr="flip", ctx=ast.Load()), args=[inner],
+                         keywords=[ast.keyword(arg="axis", value=ast.Constant(value=0))])
+            return ast.copy_location(c, n)
         if isinstance(n.ctx, ast.Load) and isinstance(s, ast.Slice) and s.lower is None and s.upper is None and \
                 isinstance(s.step, ast.UnaryOp) and isinstance(s.step.op, ast.USub) and isinstance(s.step.operand, ast.Constant) and \
                 s.step.operand.value == 1:
